@@ -47,17 +47,31 @@ results = {}
 evbak = '/tmp/seed_evidence_bak_%s' % sid
 shutil.rmtree(evbak, ignore_errors=True)
 shutil.copytree('/verif/evidence', evbak)
-sh('git -C /repo apply %s/patch.diff' % dst)
+# default: the prescribed way (apply to /repo, run, undo). SEED_COPY=1: run the checks against a scratch copy of
+# /repo/include with the patch applied (VF_REPO), so that /repo stays untouched while something else is using it
+copy_mode = bool(os.environ.get('SEED_COPY'))
+envp = ''
+if copy_mode:
+    crepo = '/tmp/seedrepo_%s' % sid
+    shutil.rmtree(crepo, ignore_errors=True)
+    os.makedirs(crepo)
+    sh('cp -r /repo/include %s/include && cd %s && git init -q . && git apply %s/patch.diff' % (crepo, crepo, dst))
+    envp = 'VF_REPO=%s ' % crepo
+else:
+    sh('git -C /repo apply %s/patch.diff' % dst)
 try:
     for cid in [prop] + [c for c in extra if c != prop]:
         t = time.time()
-        r = sh('cd /verif && ./check %s --tier quick' % cid)
+        r = sh('cd /verif && %s./check %s --tier quick' % (envp, cid))
         viol = [l for l in r.stdout.split('\n') if l.startswith('VIOLATION')]
         detail = [l.strip() for l in r.stdout.split('\n') if l.startswith('  machine=')][:3]
         results[cid] = {'exit': r.returncode, 'violations_listed': len(viol), 'first': detail[:2], 'wall_s': round(time.time() - t, 1)}
         print('  %s: exit %d, %d VIOLATION lines %s' % (cid, r.returncode, len(viol), detail[:1]))
 finally:
-    sh('git -C /repo checkout -- .')
+    if copy_mode:
+        shutil.rmtree(crepo, ignore_errors=True)
+    else:
+        sh('git -C /repo checkout -- .')
     shutil.rmtree('/verif/evidence', ignore_errors=True)
     shutil.copytree(evbak, '/verif/evidence')
     shutil.rmtree(evbak, ignore_errors=True)
